@@ -6,7 +6,7 @@ from ..e3 import replay, skeleton_obs  # noqa: F401
 
 META = {
     "level": "model_checking",
-    "assumptions": ["'passes mypy' is NOT decided: mypy is an external static analyser with no solver encoding here; only 'annotations describe what actually happens' is"],
+    "assumptions": ["'passes mypy' is not decided by a solver: mypy is an external static analyser with no encoding here; it is run as a concrete gate (engine=replay) over the skeleton packages in both enum styles; only 'annotations describe what actually happens' is solver-decided"],
 }
 
 
@@ -14,4 +14,13 @@ def obligations(tier: str) -> list[Ob]:
     obs = skeleton_obs("C11", "model", ["ann_"], tier, label="annotations")
     obs += skeleton_obs("C11", "model", ["ann_"], tier, names=["enums", "unions", "nested"], config={"literal_enums": True}, label="annotations-literal-enums")
     obs += skeleton_obs("C11", "endpoint", ["req_"], tier, names=["bodies", "params"], label="encoder-accepts-annotated-values")
+    obs.append(Ob("typecheck", "vlib.replay_checks:typecheck", {}, timeout_s=900, engine="replay", cpus=2))
     return obs
+
+
+def replay_any(w: dict) -> dict:
+    if w.get("replay_func", "").endswith("replay_typecheck"):
+        from ..replay_checks import replay_typecheck
+
+        return replay_typecheck(w)
+    return replay(w)
